@@ -6,6 +6,8 @@ import I18n.Lemmas.HdrNoCrash
 import I18n.Lemmas.HdrParse
 import I18n.Lemmas.HdrExempt
 import I18n.Props.C20
+import I18n.Lemmas.HdrClean
+import I18n.Lemmas.HdrNames
 /-
 # C15 — header diagnostics match the documented conditions
 
@@ -186,5 +188,269 @@ theorem registry_case_distinct :
 
 /-- `get_character_name` has a name for every character `find_unusual_characters` can report -/
 theorem unusual_names_total : candidates.all (fun n => (nameOfNat n).isSome) = true := Hdr.unusual_names_total
+
+/-! ## where the file kind matters -/
+
+/-- the same file as another kind -/
+def asKind (f : File) (tmpl bin : Bool) : File := ⟨⟨tmpl, bin⟩, f.comments, f.entries⟩
+
+/-- **pot_exemptions**: in a template the header entry may be fuzzy and the translator / team placeholders are expected —
+    `fuzzy-header-entry`, `boilerplate-in-last-translator`, `boilerplate-in-language-team` are never due there, and that is
+    the only way the entry, translator and team rules depend on the file being a template; the stray-line, field-name,
+    MIME, Content-Type (given the charset verdict), project and bug-address rules do not take the file kind at all. -/
+theorem pot_exemptions (x : Ext) (f : File) (fs : List (Str × Str)) (b : Bool) (t : TagCall) :
+    (EntryRule x (asKind f true b) t ↔ (EntryRule x (asKind f false b) t ∧ t ≠ t0 "fuzzy-header-entry")) ∧
+    (TranslatorRule x (asKind f true b) fs t ↔
+      (TranslatorRule x (asKind f false b) fs t ∧ t.name ≠ "boilerplate-in-last-translator")) ∧
+    (TeamRule x (asKind f true b) fs t ↔
+      (TeamRule x (asKind f false b) fs t ∧ t.name ≠ "boilerplate-in-language-team")) := by
+  refine ⟨?_, ?_, ?_⟩
+  · unfold EntryRule asKind
+    simp only [Bool.true_eq_false, false_and, and_false, false_or]
+    constructor
+    · rintro (⟨h, rfl⟩ | ⟨e, i, he, h⟩)
+      · exact ⟨Or.inl ⟨h, rfl⟩, by simp [t0]⟩
+      · rcases h with ⟨h, rfl⟩ | ⟨h, rfl⟩ | ⟨h, rfl⟩ | ⟨fl, hfl, hne, rfl⟩ | ⟨fl, hc, rfl⟩ | ⟨text, h1, h2, rfl⟩
+        · exact ⟨Or.inr ⟨e, i, he, Or.inl ⟨h, rfl⟩⟩, by simp [t0]⟩
+        · exact ⟨Or.inr ⟨e, i, he, Or.inr (Or.inl ⟨h, rfl⟩)⟩, by simp [t0]⟩
+        · exact ⟨Or.inr ⟨e, i, he, Or.inr (Or.inr (Or.inl ⟨h, rfl⟩))⟩, by simp [t0]⟩
+        · exact ⟨Or.inr ⟨e, i, he, Or.inr (Or.inr (Or.inr (Or.inr (Or.inl ⟨fl, hfl, hne, rfl⟩))))⟩, by simp [t0]⟩
+        · exact ⟨Or.inr ⟨e, i, he, Or.inr (Or.inr (Or.inr (Or.inr (Or.inr (Or.inl ⟨fl, hc, rfl⟩)))))⟩, by simp [t0]⟩
+        · exact ⟨Or.inr ⟨e, i, he, Or.inr (Or.inr (Or.inr (Or.inr (Or.inr (Or.inr ⟨text, h1, h2, rfl⟩)))))⟩, by simp [t0]⟩
+    · rintro ⟨h | ⟨e, i, he, h⟩, hne⟩
+      · exact Or.inl h
+      · refine Or.inr ⟨e, i, he, ?_⟩
+        rcases h with h | h | h | ⟨_, _, rfl⟩ | h | h | h
+        · exact Or.inl h
+        · exact Or.inr (Or.inl h)
+        · exact Or.inr (Or.inr (Or.inl h))
+        · exact absurd rfl hne
+        · exact Or.inr (Or.inr (Or.inr (Or.inl h)))
+        · exact Or.inr (Or.inr (Or.inr (Or.inr (Or.inl h))))
+        · exact Or.inr (Or.inr (Or.inr (Or.inr (Or.inr h))))
+  · unfold TranslatorRule asKind
+    simp only [Bool.true_eq_false, false_and, and_false, false_or]
+    constructor
+    · rintro (⟨h, rfl⟩ | ⟨h, rfl⟩ | ⟨v, hv, h⟩)
+      · exact ⟨Or.inl ⟨h, rfl⟩, by simp [t0]⟩
+      · exact ⟨Or.inr (Or.inl ⟨h, rfl⟩), by simp [t0]⟩
+      · rcases h with ⟨h, rfl⟩ | ⟨ha, ⟨h, rfl⟩ | ⟨h, rfl⟩⟩
+        · exact ⟨Or.inr (Or.inr ⟨v, hv, Or.inl ⟨h, rfl⟩⟩), by simp⟩
+        · exact ⟨Or.inr (Or.inr ⟨v, hv, Or.inr ⟨ha, Or.inl ⟨h, rfl⟩⟩⟩), by simp⟩
+        · exact ⟨Or.inr (Or.inr ⟨v, hv, Or.inr ⟨ha, Or.inr (Or.inr ⟨h, rfl⟩)⟩⟩), by simp⟩
+    · rintro ⟨h | h | ⟨v, hv, h⟩, hne⟩
+      · exact Or.inl h
+      · exact Or.inr (Or.inl h)
+      · refine Or.inr (Or.inr ⟨v, hv, ?_⟩)
+        rcases h with h | ⟨ha, h | ⟨_, _, rfl⟩ | h⟩
+        · exact Or.inl h
+        · exact Or.inr ⟨ha, Or.inl h⟩
+        · exact absurd rfl hne
+        · exact Or.inr ⟨ha, Or.inr h⟩
+  · unfold TeamRule asKind
+    simp only [Bool.true_eq_false, false_and, and_false, false_or]
+    constructor
+    · rintro (⟨h, rfl⟩ | ⟨h, rfl⟩ | ⟨v, hv, ha, h⟩)
+      · exact ⟨Or.inl ⟨h, rfl⟩, by simp [t0]⟩
+      · exact ⟨Or.inr (Or.inl ⟨h, rfl⟩), by simp [t0]⟩
+      · rcases h with ⟨h, rfl⟩ | ⟨h, rfl⟩ | ⟨h, tr, htr, rfl⟩
+        · exact ⟨Or.inr (Or.inr ⟨v, hv, ha, Or.inl ⟨h, rfl⟩⟩), by simp⟩
+        · exact ⟨Or.inr (Or.inr ⟨v, hv, ha, Or.inr (Or.inr (Or.inl ⟨h, rfl⟩))⟩), by simp⟩
+        · exact ⟨Or.inr (Or.inr ⟨v, hv, ha, Or.inr (Or.inr (Or.inr ⟨h, tr, htr, rfl⟩))⟩), by simp⟩
+    · rintro ⟨h | h | ⟨v, hv, ha, h⟩, hne⟩
+      · exact Or.inl h
+      · exact Or.inr (Or.inl h)
+      · refine Or.inr (Or.inr ⟨v, hv, ha, ?_⟩)
+        rcases h with h | ⟨_, _, rfl⟩ | h | h
+        · exact Or.inl h
+        · exact absurd rfl hne
+        · exact Or.inr (Or.inl h)
+        · exact Or.inr (Or.inr h)
+
+/-- in a translated file the three placeholders ARE due (the exemption is exactly the template flag) -/
+theorem po_boilerplate_due (x : Ext) (f : File) (fs : List (Str × Str)) (hk : f.kind.isTemplate = false) (v : Str) :
+    (v ∈ vals fs "Last-Translator" → HasAt (x.parseaddr v) → AddrIs x ["EMAIL@ADDRESS"] (x.parseaddr v) .boilerplate →
+      TranslatorRule x f fs ⟨"boilerplate-in-last-translator", [.str v]⟩) ∧
+    (v ∈ vals fs "Language-Team" → HasAt (x.parseaddr v) → AddrIs x ["EMAIL@ADDRESS", "LL@li.org"] (x.parseaddr v) .boilerplate →
+      TeamRule x f fs ⟨"boilerplate-in-language-team", [.str v]⟩) :=
+  ⟨fun hv ha hb => Or.inr (Or.inr ⟨v, hv, Or.inr ⟨ha, Or.inr (Or.inl ⟨hb, hk, rfl⟩)⟩⟩),
+   fun hv ha hb => Or.inr (Or.inr ⟨v, hv, ha, Or.inr (Or.inl ⟨hb, hk, rfl⟩)⟩)⟩
+
+/-- the comment patterns looked for in a template are among those looked for in a translated file (the three msginit
+    patterns are the difference) -/
+theorem pot_comments_subset (x : Ext) (f : File) (b : Bool) (t : TagCall) :
+    CommentRule x (asKind f true b) t → CommentRule x (asKind f false b) t := by
+  unfold CommentRule asKind
+  rintro ⟨line, hl, hit, rfl⟩
+  refine ⟨line, hl, ?_, rfl⟩
+  unfold commentLineHit at hit ⊢
+  -- a hit of the template alternation at some position is a hit of the larger alternation there
+  have hmono : ∀ (prev : Option Char) (s : Str), commentHit x.db true prev s = true → commentHit x.db false prev s = true := by
+    intro prev s h
+    unfold commentHit at h ⊢
+    simp only [Bool.not_true, Bool.false_and, Bool.or_false] at h
+    rw [h]; rfl
+  have mono : ∀ (prev : Option Char) (s : Str), anyPos (commentHit x.db true) prev s = true → anyPos (commentHit x.db false) prev s = true := by
+    intro prev s
+    induction s generalizing prev with
+    | nil => unfold anyPos; exact hmono prev []
+    | cons c cs ih =>
+      unfold anyPos
+      simp only [Bool.or_eq_true]
+      rintro (h | h)
+      · exact Or.inl (hmono _ _ h)
+      · exact Or.inr (ih _ h)
+  exact mono none line hit
+
+/-- **mo_exemptions**: the binary flag is consulted by the date rule only, and there it excuses exactly the absence of
+    POT-Creation-Date: a missing PO-Revision-Date is still reported in an MO file, a missing POT-Creation-Date is reported in
+    PO and POT files -/
+theorem mo_exemptions (now : Int) (f : File) (fs : List (Str × Str)) :
+    (DateRule now f fs ⟨"no-date-header-field", [.str "POT-Creation-Date".toList]⟩ ↔
+      (vals fs "POT-Creation-Date" = [] ∧ f.kind.isBinary = false)) ∧
+    (DateRule now f fs ⟨"no-date-header-field", [.str "PO-Revision-Date".toList]⟩ ↔ vals fs "PO-Revision-Date" = []) := by
+  have key : ∀ g : Date.Field, DateRule now f fs (ofDateTag (noDate g)) ↔
+      ((match g with | .pot => vals fs "POT-Creation-Date" | .po => vals fs "PO-Revision-Date") = [] ∧ ¬ (g = .pot ∧ f.kind.isBinary = true)) := by
+    intro g
+    unfold DateRule
+    constructor
+    · rintro ⟨ds, hd, d, hm, e⟩
+      have hdg : d = noDate g := by
+        obtain ⟨n, a⟩ := d
+        unfold ofDateTag noDate at e
+        simp only [TagCall.mk.injEq, List.map_cons, List.map_nil] at e
+        obtain ⟨e1, e2⟩ := e
+        unfold noDate
+        subst e1
+        cases a with
+        | nil => simp at e2
+        | cons a1 r =>
+          cases r with
+          | nil =>
+            cases a1 with
+            | safe s => simp at e2
+            | str s => simp at e2; subst e2; rfl
+          | cons a2 r2 => simp at e2
+      subst hdg
+      have := (noDate_mem_checkDates _ g ds hd).1 hm
+      cases g <;> simpa using this
+    · intro h
+      have hsome := Date.checkDates_isSome ⟨(vals fs "Content-Type").head?, f.kind.isBinary, f.kind.isTemplate,
+        vals fs "POT-Creation-Date", vals fs "PO-Revision-Date", now⟩
+      obtain ⟨ds, hd⟩ := Option.isSome_iff_exists.1 hsome
+      refine ⟨ds, hd, noDate g, ?_, rfl⟩
+      apply (noDate_mem_checkDates _ g ds hd).2
+      cases g <;> simpa using h
+  constructor
+  · have := key .pot
+    simp only [true_and] at this
+    have e : ofDateTag (noDate .pot) = ⟨"no-date-header-field", [.str "POT-Creation-Date".toList]⟩ := by decide
+    rw [e] at this
+    rw [this]
+    cases f.kind.isBinary <;> simp
+  · have := key .po
+    have e : ofDateTag (noDate .po) = ⟨"no-date-header-field", [.str "PO-Revision-Date".toList]⟩ := by decide
+    rw [e] at this
+    rw [this]
+    simp
+
+/-! ## a header that follows every convention -/
+
+/-- **clean_header_silent**: on a file that follows every convention (`Conventional`) the rule set prescribes nothing, and the
+    header stages emit nothing -/
+theorem clean_header_silent (x : Ext) (cs : CharsetCheck) (hcs : ∀ n, ∃ r, cs n = .ok r) (now : Int) (f : File)
+    (c : Conventional x cs now f) : (∀ t, ¬ Reported x cs now f t) ∧ checkAll x cs now f = some [] := by
+  refine ⟨conventional_silent x cs now f c, ?_⟩
+  cases h : checkAll x cs now f with
+  | none => exact absurd h (hdr_nocrash x cs hcs now f)
+  | some ts =>
+    cases ts with
+    | nil => rfl
+    | cons t r =>
+      exact absurd ((header_tags_eq x cs now f (t :: r) h t).1 (by simp)) (conventional_silent x cs now f c t)
+
+/-! ## tag names -/
+
+/-- **tag_sites_pin**: the `self.tag(…)` calls in the six methods (ast walk of this run) name exactly the tags of the model -/
+theorem tag_sites_pin :
+    sourceTagNames = modelTagNames ∧
+    ((Generated.HeaderFields.tagsOf.filter fun e => stageMethods.contains e.1).all fun e => !e.2.2) = true ∧
+    (stageMethods.all fun m => Generated.HeaderFields.tagsOf.any fun e => e.1 == m) = true := Hdr.tag_sites_pin
+
+/-- every diagnostic of the header stages carries one of those names -/
+theorem emitted_names_registered (x : Ext) (cs : CharsetCheck) (now : Int) (f : File) (ts : List TagCall)
+    (h : checkAll x cs now f = some ts) : ∀ t ∈ ts, t.name ∈ modelTagNames :=
+  fun t ht => reported_name x cs now f t ((header_tags_eq x cs now f ts h t).1 ht)
+
+/-! ## non-vacuity: the model run by the kernel on concrete files -/
+
+section Examples
+
+private def pa (v : Str) : Str :=
+  if v = "Jakub Wilk <jwilk@jwilk.net>".toList then "jwilk@jwilk.net".toList
+  else if v = "Polish <pl@lists.jwilk.net>".toList then "pl@lists.jwilk.net".toList
+  else if v = "FULL NAME <EMAIL@ADDRESS>".toList then "EMAIL@ADDRESS".toList
+  else if v = "LANGUAGE <LL@li.org>".toList then "LL@li.org".toList
+  else v
+
+private def exExt : Ext := {
+  db := { isWord := fun c => c.isAlphanum || c = '_', isSpace := fun c => c = ' ' || c = '\t' || c = '\n',
+          isDigit := fun c => c.isDigit, lower := asciiLower }
+  parseaddr := pa
+  urlScheme := fun v => if v = "http://[foo".toList then none else some []
+  closeFuzzy := fun _ => false
+  closeField := fun _ => none }
+
+private def header (report translator team mime : String) : Str :=
+  "Project-Id-Version: Gizmo Enhancer 1.0\nReport-Msgid-Bugs-To: ".toList ++ report.toList
+  ++ "\nPOT-Creation-Date: 2012-11-01 14:42+0100\nPO-Revision-Date: 2012-11-01 14:42+0100\nLast-Translator: ".toList
+  ++ translator.toList ++ "\nLanguage-Team: ".toList ++ team.toList ++ "\nLanguage: pl\nMIME-Version: ".toList ++ mime.toList
+  ++ "\nContent-Type: text/plain; charset=UTF-8\nContent-Transfer-Encoding: 8bit\n".toList
+
+private def fileOf (k : Kind) (text : Str) (flags : List Str) : File :=
+  ⟨k, "Polish translation of gizmo\nCopyright (C) 2012 Jakub Wilk".toList, [⟨[], none, false, [], none, text, none, flags⟩]⟩
+
+private def cleanHeader : Str := header "gizmoenhancer@jwilk.net" "Jakub Wilk <jwilk@jwilk.net>" "Polish <pl@lists.jwilk.net>" "1.0"
+private def potHeader : Str := header "gizmoenhancer@jwilk.net" "FULL NAME <EMAIL@ADDRESS>" "LANGUAGE <LL@li.org>" "1.0"
+
+private def csOk : CharsetCheck := fun n => .ok ([], some n)
+private def now2026 : Int := 1767225600000000
+
+set_option maxRecDepth 100000 in
+/-- a clean header is silent, in every kind of file -/
+example : checkAll exExt csOk now2026 (fileOf .po cleanHeader []) = some []
+    ∧ checkAll exExt csOk now2026 (fileOf .pot cleanHeader []) = some []
+    ∧ checkAll exExt csOk now2026 (fileOf .mo cleanHeader []) = some [] := by decide +kernel
+
+set_option maxRecDepth 100000 in
+/-- the template placeholders and a fuzzy header entry: three tags in a PO file, none in a POT file -/
+example : checkAll exExt csOk now2026 (fileOf .po potHeader ["fuzzy".toList]) = some [
+      ⟨"fuzzy-header-entry", []⟩,
+      ⟨"boilerplate-in-last-translator", [.str "FULL NAME <EMAIL@ADDRESS>".toList]⟩,
+      ⟨"boilerplate-in-language-team", [.str "LANGUAGE <LL@li.org>".toList]⟩]
+    ∧ checkAll exExt csOk now2026 (fileOf .pot potHeader ["fuzzy".toList]) = some [] := by decide +kernel
+
+set_option maxRecDepth 100000 in
+/-- the witness of fix 2f85d76 (unparsable URL), a dot-less domain, a reserved domain, a bad MIME version -/
+example : checkAll exExt csOk now2026
+      (fileOf .po (header "http://[foo" "root@localhost" "team@example.org" "1.1") []) = some [
+      ⟨"invalid-mime-version", [.str "1.1".toList, .str "=>".toList, .str "1.0".toList]⟩,
+      ⟨"invalid-report-msgid-bugs-to", [.str "http://[foo".toList]⟩,
+      ⟨"invalid-last-translator", [.str "root@localhost".toList]⟩,
+      ⟨"invalid-language-team", [.str "team@example.org".toList]⟩] := by decide +kernel
+
+example : Domains.isSpecialLowered "example.com".toList = true ∧ Domains.isSpecialLowered "notexample.com".toList = false
+    ∧ Domains.isSpecialLowered "foo.test".toList = true ∧ Domains.isSpecialLowered "local".toList = false
+    ∧ Domains.isSpecialLowered "a.local".toList = true := by decide
+
+example : parseHeader "A: b \nstray\nX-y:\tz\n".toList =
+    [.field "A".toList "b".toList, .stray "stray".toList, .field "X-y".toList "z".toList] := by decide
+
+example : matchContentType exExt.db "text/plain; charset=UTF-8".toList = some (true, "UTF-8".toList)
+    ∧ matchContentType exExt.db "text/plain;charset=UTF-8".toList = some (false, "UTF-8".toList)
+    ∧ matchContentType exExt.db "text/plain; xcharset=UTF-8".toList = none
+    ∧ matchContentType exExt.db "text/plain; charset=utf-8;".toList = none := by decide
+
+end Examples
 
 end I18n.Props.C15
